@@ -16,7 +16,8 @@ import (
 func init() {
 	register(&RuleSet{
 		ID: "C03",
-		Explanation: "R10 (= C06.R13) the provenance the request names (ClSpec, Commit) is stored into the signed document on every successful path. " +
+		Explanation: "R11 (= C02.R1 on verify.SNP) a measurement listed for a configuration is the one the verifier compares a launch with that configuration against. " +
+			"R10 (= C06.R13) the provenance the request names (ClSpec, Commit) is stored into the signed document on every successful path. " +
 			"R9 the CLI's output back end (IO.Create implementations of gcetcbendorsement/cmd) opens files replacing their contents (os.Create / os.WriteFile / O_TRUNC): re-emitted signed pieces carry no stale tail. " +
 			"R1 same bytes: in endorse.SignDoc the bytes stored in the endorsement's SerializedUefiGolden and the operand of the SHA-256 whose result is signed are one SSA value, the result of the single proto.Marshal of the document; the signature stored is Signer.Sign's result; the verification core never re-serialises (C01.R1b). " +
 			"R2 parameter agreement (siblings): every rsa.PSSOptions literal in production code is {PSSSaltLengthEqualsHash, SHA-256}; every digest handed to Signer.Sign / rsa.SignPSS / rsa.VerifyPSS comes from sha256.Sum256; certificate templates and the verifier use x509.SHA256WithRSAPSS; any extended key usage a template sets is acceptable to every x509 chain verification site of the repository (no KeyUsages = ServerAuth, Any matches all); KMS keys are created with RSA_SIGN_PSS_4096_SHA256; the documented openssl command (value of the constant format in OpensslVerifyShellCmd) names pss padding, salt length 32, sha256 digest and sha256 MGF1. " +
@@ -37,6 +38,10 @@ func runC03(c *Ctx) {
 	// changelist nor a commit, so the signer must not drop the provenance the request names: GoldenMeasurement stores
 	// ClSpec and Commit on every successful path.
 	c.borrow("R10/C06.", runC06, func(rule, _ string) bool { return rule == "R13" })
+	// R11 = C02.R1: "every measurement it lists is accepted for its configuration" — when the launch VMSA count is
+	// named, verify.SNP accepts only after comparing the reported measurement with the entry listed for that count
+	// (an SVSM measurement stands in for the count 1 only), and refuses only when that entry is absent or differs.
+	c.borrow("R11/C02.", runC02, func(rule, construct string) bool { return rule == "R1" && strings.Contains(construct, "verify.SNP") })
 	// R9: what the inspection commands emit (payload, signature, certificate) are the stored signed bytes: the CLI's
 	// output back end (in-repo implementations of the IO interface's Create in gcetcbendorsement/cmd) replaces an
 	// existing file wholly — a shorter re-emission over a longer file must not keep the old tail, or the emitted
